@@ -151,6 +151,427 @@ def history_oracle(chk, world, case):
                     "in the process sorts on them)" % (diff, [before[k] for k in diff], [after.get(k) for k in diff]), case)
 
 
+def seed_broker_case(rep, world, seeds, ss, graph, case):
+    """
+    State shared between fresh objects: ONE seed broker holds the given values; two evaluations follow, each on its own
+    `dr.Broker(seed_broker)`.  Each is an evaluation like any other (attempts_oracle: the given values neither
+    recomputed nor replaced), each attempts exactly what an evaluation on a broker that was given the values directly
+    attempts, and neither changes what the seed broker holds.
+    """
+    ref = W.evaluate(world, seeds, ss, graph, mode="run")
+    if ref.error is not None:
+        return
+    want = sorted(ref.broker.vlog["attempts"])
+    sb = world.new_broker(seeds, ss)
+    held_objs = dict(sb.instances)
+    for k in (1, 2):
+        what = "evaluation %d on a Broker(seed_broker)" % k
+        try:
+            b = dr.Broker(sb)
+        except Exception as ex:
+            rep.failure("Broker(seed_broker) raised %r" % (ex,), case)
+            return
+        b.vworld, b.store_skips = world, ss
+        b.vlog = {"fired": [], "src": {}, "seen": 0, "obs_fail": 0}
+        W.instrument(world, b)
+        world.calls = []
+        try:
+            dr.run(dict((c, set(v)) for c, v in graph.items()), broker=b)
+        except Exception as ex:
+            rep.failure("%s raised %r" % (what, ex), case)
+            return
+        att = list(b.vlog["attempts"])
+        now = dict((cid, W.canon_val(world, b.instances[world.comps[cid]])) for cid, _ in seeds if world.comps[cid] in b.instances)
+        attempts_oracle(rep, world, att, seeds, now, case, what)
+        if sorted(att) != want:
+            rep.failure("%s attempted %s; an evaluation on a broker given the same values directly attempts %s"
+                        % (what, sorted(att), want), case)
+        if set(sb.instances) != set(held_objs) or any(sb.instances[c] is not v for c, v in held_objs.items()):
+            rep.failure("%s changed what the seed broker holds: %s -> %s" % (
+                what, sorted(world.ids.get(c, -1) for c in held_objs), sorted(world.ids.get(c, -1) for c in sb.instances)), case)
+            return
+
+
+# --------------------------------------------------------------------------- graph construction from components
+
+def _walk_decl(world, late):
+    """the harness's OWN record of the declared edges: what it wrote into the decorators / component types, plus the
+    late registrations it made (never what the registries report)"""
+    decl = {}
+    for cid, sc in enumerate(world.spec):
+        decl[cid] = set(x for it in sc["items"] for x in ([it[1]] if it[0] == "o" else it[1])) | set(sc["optional"])
+    for p, d in late:
+        decl[p].add(d)
+    return decl
+
+
+def _closure(decl, roots):
+    seen, todo = set(), [r for r in roots]
+    while todo:
+        c = todo.pop()
+        if c in seen:
+            continue
+        seen.add(c)
+        todo.extend(decl[c])
+    return seen
+
+
+def _unregistered():
+    def never_decorated():
+        return None
+    return never_decorated
+
+
+def walk_case(rep, world, case):
+    """
+    One graph construction: dr.get_dependency_graph / dr.determine_components on a component, a list, a set, a
+    component type — compared with IV.Dr.getDependencyGraph / determineList (text returned) and held to: every
+    component reachable from the roots is a key and its entry holds exactly its declared dependencies, nothing else is
+    a key, every item sits on a later toposort level than each of its dependencies, dr.run_order has every item once
+    and after its dependencies; then dr.run on the same argument attempts exactly the reachable enabled components
+    that were given no value, each once and after its dependencies.
+    """
+    mode, roots, late = case["walk"], case["roots"], [tuple(x) for x in case.get("late", [])]
+    decl = _walk_decl(world, late)
+    n = world.n
+    objs = [world.comps[r] if r < n else _unregistered() for r in roots]
+    if mode in ("one", "one-dc"):
+        arg = objs[0]
+    elif mode == "set":
+        arg = set(objs)
+    elif mode == "type":
+        arg = type(dr.get_delegate(objs[0]))
+    elif mode == "group":
+        arg = dr.GROUPS.cluster            # the component group: the registry's own dict for that group
+    else:
+        arg = list(objs)
+    before = world.edge_snapshot()
+    try:
+        graph = dr.get_dependency_graph(arg) if mode == "one" else dr.determine_components(arg)
+    except Exception as ex:
+        if type(ex) is Exception and "not a registered component" in str(ex):
+            text = "unregistered"
+        else:
+            text = "raised:%s" % type(ex).__name__
+        if all(r < n for r in roots):
+            rep.failure("graph construction (%s) of registered components %s raised %r" % (mode, roots, ex), case)
+        return text
+    if any(r >= n for r in roots):
+        rep.failure("graph construction (%s) accepted a component that was never registered: %r" % (mode, type(graph)), case)
+        return "accepted-unregistered"
+    why = world.edges_changed(before)
+    if why:
+        rep.failure("graph construction (%s): %s" % (mode, why), case)
+    if not isinstance(graph, dict):
+        rep.failure("graph construction (%s) returned %r, not a dict" % (mode, type(graph)), case)
+        return "not-a-dict:%s" % type(graph).__name__
+    g = {}
+    for k, v in graph.items():
+        if k not in world.ids or not isinstance(v, (set, frozenset, list, tuple)) or any(d not in world.ids for d in v):
+            rep.failure("graph construction (%s): entry %r -> %r is not made of this world's components" % (mode, k, v), case)
+            return "foreign-entry"
+        g[world.ids[k]] = set(world.ids[d] for d in v)
+    reach = _closure(decl, roots)
+    if set(g) != reach:
+        rep.failure("graph construction (%s) from %s: keys %s, the components reachable over the declared edges are %s "
+                    "(missing %s, extra %s)" % (mode, roots, sorted(g), sorted(reach), sorted(reach - set(g)), sorted(set(g) - reach)), case)
+    for c in sorted(set(g) & reach):
+        if g[c] != decl[c]:
+            rep.failure("graph construction (%s) from %s: component %d is entered with dependencies %s, declared are %s"
+                        % (mode, roots, c, sorted(g[c]), sorted(decl[c])), case)
+    # the reverse registry (dr.get_dependents: what get_subgraphs walks) holds exactly the declared edges, reversed
+    for c in sorted(reach):
+        try:
+            got = set(world.ids[p] for p in dr.get_dependents(world.comps[c]) if p in world.ids)
+        except Exception as ex:
+            rep.failure("dr.get_dependents(%d) raised %r" % (c, ex), case)
+            break
+        wantd = set(p for p in decl if c in decl[p])
+        if got != wantd:
+            rep.failure("component %d is declared as a dependency by %s, dr.get_dependents gives %s" % (c, sorted(wantd), sorted(got)), case)
+            break
+    levels_txt = "?"
+    try:
+        lv = [sorted(world.ids[c] for c in level) for level in toposort(dict((k, set(v)) for k, v in graph.items()))]
+        levels_txt = "/".join(",".join(map(str, l)) for l in lv)
+        where = dict((c, i) for i, l in enumerate(lv) for c in l)
+        order = [world.ids.get(c, -1) for c in dr.run_order(dict((k, set(v)) for k, v in graph.items()))]
+        if sorted(order) != sorted(set(order)) or not set(g) <= set(order):
+            rep.failure("run order %s of the graph of %s: an item twice or a key left out" % (order, roots), case)
+        pos = dict((c, i) for i, c in enumerate(order))
+        for c in sorted(reach & set(where)):
+            for d in sorted(decl[c]):
+                if d == c:
+                    continue
+                if d not in where or not where[d] < where[c]:
+                    rep.failure("component %d is on toposort level %s, its dependency %d on level %s (levels %s)"
+                                % (c, where.get(c), d, where.get(d), levels_txt), case)
+                if c in pos and (d not in pos or not pos[d] < pos[c]):
+                    rep.failure("run order %s has component %d before its dependency %d" % (order, c, d), case)
+    except Exception as ex:
+        rep.failure("sorting the graph of %s raised %r" % (roots, ex), case)
+        levels_txt = "raised:%s" % type(ex).__name__
+    text = "graph=%s|levels=%s" % (";".join("%d:%s" % (k, ",".join(map(str, sorted(g[k])))) for k in sorted(g)), levels_txt)
+    # the same argument handed to dr.run (argument handling of the engine's entry point).  An argument whose truth
+    # value is False (an empty list, a falsy component object) selects the default graph there: not generated.
+    if case.get("run") and arg:
+        seeds = [tuple(x) for x in case.get("seeds", [])]
+        b = world.new_broker(seeds, False)
+        W.instrument(world, b)
+        world.calls = []
+        try:
+            out = dr.run(arg, broker=b)
+        except Exception as ex:
+            rep.failure("dr.run(<%s of %s>) raised %r" % (mode, roots, ex), case)
+            return text
+        if out is not b:
+            rep.failure("dr.run(<%s of %s>) returned %r instead of the broker it was given" % (mode, roots, type(out)), case)
+        why = world.edges_changed(before)
+        if why:
+            rep.failure("dr.run(<%s of %s>): %s" % (mode, roots, why), case)
+        att = list(b.vlog["attempts"])
+        now = dict((cid, W.canon_val(world, b.instances[world.comps[cid]])) for cid, _ in seeds if world.comps[cid] in b.instances)
+        attempts_oracle(rep, world, att, seeds, now, case, "dr.run(<%s of %s>)" % (mode, roots))
+        given = set(cid for cid, _ in seeds)
+        want = set(c for c in reach if c not in given and world.spec[c].get("enabled", True))
+        if set(att) - set([-1]) != want:
+            rep.failure("dr.run(<%s of %s>) attempted %s; the enabled components reachable over the declared edges that were "
+                        "given no value are %s" % (mode, roots, sorted(set(att)), sorted(want)), case)
+    # the same argument through the stand-alone entry point insights.run(component=...), which builds the graph itself
+    # (its own loop over get_dependency_graph) on its own broker: seen through a process-wide observer
+    if case.get("entry") and arg and mode in ("one", "list", "set"):
+        import insights
+        _ensure_global_observer()
+        world.calls = []
+        try:
+            out = insights.run(component=arg, context=_Ctx)
+        except Exception as ex:
+            rep.failure("insights.run(component=<%s of %s>) raised %r" % (mode, roots, ex), case)
+            return text
+        if not isinstance(out, dr.Broker):
+            rep.failure("insights.run(component=<%s of %s>) returned %r, not a broker" % (mode, roots, type(out)), case)
+            return text
+        seen_all = list(getattr(out, "vfired_global", []))
+        fired = [world.ids[c] for c in seen_all if c in world.ids]
+        what = "insights.run(component=<%s of %s>)" % (mode, roots)
+        if len(fired) != len(seen_all):
+            rep.failure("%s evaluated %d components that are not reachable from it (other graphs of the process)"
+                        % (what, len(seen_all) - len(fired)), case)
+        if len(fired) != len(set(fired)):
+            rep.failure("%s: a component came up twice in the evaluation: %s" % (what, fired), case)
+        if set(fired) != reach:
+            rep.failure("%s evaluated %s; reachable over the declared edges are %s" % (what, sorted(set(fired)), sorted(reach)), case)
+        pos = {}
+        for i, c in enumerate(fired):
+            pos.setdefault(c, i)
+        for c in fired:
+            for d in sorted(decl[c]):
+                if d != c and d in pos and pos[d] > pos[c]:
+                    rep.failure("%s: component %d came up before its dependency %d (order %s)" % (what, c, d, fired), case)
+        bodies = {}
+        for c, a in world.calls:
+            if not (a and a[0] == "elem"):
+                bodies[c] = bodies.get(c, 0) + 1
+        for c, k in sorted(bodies.items()):
+            if k > 1:
+                rep.failure("%s: component %d was invoked %d times" % (what, c, k), case)
+            if not world.spec[c].get("enabled", True):
+                rep.failure("%s: disabled component %d was invoked" % (what, c), case)
+    return text
+
+
+_GOBS = [False]
+
+
+def _ensure_global_observer():
+    """a process-wide observer (dr.add_observer): every broker created afterwards reports each component it comes to"""
+    if not _GOBS[0]:
+        def gobs(comp, broker):
+            broker.__dict__.setdefault("vfired_global", []).append(comp)
+        dr.add_observer(gobs, dr.ComponentType)
+        _GOBS[0] = True
+
+
+def default_graph_case(rep, kept, mode):
+    """
+    The engine's DEFAULT argument: dr.run(broker=b) / dr.run_all(broker=b) without components evaluates the whole
+    default group of the process — here every world in `kept` [(world, late, spec)] at once (plus whatever else the
+    process registered).  Per world: every component comes up exactly once and after each of its declared dependencies;
+    no body is invoked twice; every enabled component that declares no dependency at all is invoked.
+    Returns the number of components that came up.
+    """
+    _ensure_global_observer()
+    for world, _, _ in kept:
+        world.calls = []
+    b = dr.Broker()
+    try:
+        if mode == "run_all":
+            outs = dr.run_all(broker=b)
+            seen_all = [c for o in outs for c in getattr(o, "vfired_global", [])] if all(o is not b for o in outs) else list(getattr(b, "vfired_global", []))
+        else:
+            dr.run(broker=b)
+            seen_all = list(getattr(b, "vfired_global", []))
+    except Exception as ex:
+        rep.failure("dr.%s(broker=<fresh>) on the default graph raised %r" % (mode, ex), {"op": "default-graph", "mode": mode, "spec": W.strip(kept[0][2]), "late": kept[0][1]})
+        return 0
+    pos, count = {}, {}
+    for i, c in enumerate(seen_all):
+        pos.setdefault(c, i)
+        count[c] = count.get(c, 0) + 1
+    for world, late, spec in kept:
+        case = {"op": "default-graph", "mode": mode, "spec": W.strip(spec), "late": list(late)}
+        decl = _walk_decl(world, late)
+        what = "dr.%s(broker=<fresh>) on the default graph" % mode
+        bad = False
+        for cid, comp in enumerate(world.comps):
+            if count.get(comp, 0) != 1:
+                rep.failure("%s: component %d came up %d times" % (what, cid, count.get(comp, 0)), case)
+                bad = True
+                break
+            for d in sorted(decl[cid]):
+                dc = world.comps[d]
+                if d != cid and not (dc in pos and pos[dc] < pos[comp]):
+                    rep.failure("%s: component %d came up before its dependency %d" % (what, cid, d), case)
+                    bad = True
+                    break
+            if bad:
+                break
+        if bad:
+            continue
+        bodies = {}
+        for c, a in world.calls:
+            if not (a and a[0] == "elem"):
+                bodies[c] = bodies.get(c, 0) + 1
+        for cid, sc in enumerate(world.spec):
+            if bodies.get(cid, 0) > 1:
+                rep.failure("%s: component %d was invoked %d times" % (what, cid, bodies[cid]), case)
+                break
+            if sc["kind"] not in ("point", "parser1", "parser0") and not sc["items"] and not sc["optional"] and not decl[cid] \
+                    and sc.get("enabled", True) and not sc.get("ignore") and bodies.get(cid, 0) != 1:
+                rep.failure("%s: component %d is enabled and declares no dependency at all, it was invoked %d times"
+                            % (what, cid, bodies.get(cid, 0)), case)
+                break
+            if not sc.get("enabled", True) and bodies.get(cid, 0):
+                rep.failure("%s: disabled component %d was invoked" % (what, cid), case)
+                break
+    return len(seen_all)
+
+
+def walk_stream(chk, n_worlds):
+    rng = chk.rng
+    lines, impl, cases = [], [], []
+    kept = []
+    # the component GROUP as the argument (dr.run(GROUPS.cluster): determine_components hands out the group registry's own
+    # dict): one world whose components all belong to the cluster group — the only such components of this process
+    if not dr.COMPONENTS[dr.GROUPS.cluster]:
+        for _ in range(200):
+            spec = W.gen_spec(rng, rng.randint(6, 12), fault_rate=0.1, with_points=False)
+            if not any(sc["kind"] in ("parser1", "parser0") for sc in spec):
+                break
+        else:
+            spec = None
+        if spec:
+            for sc in spec:
+                sc["cluster"] = True
+            used = sorted(set(x for sc in spec for it in sc["items"] for x in ([it[1]] if it[0] == "o" else it[1])) |
+                          set(x for sc in spec for x in sc["optional"]))
+            for cid in rng.sample(used, min(2, len(used))):
+                spec[cid]["enabled"] = False           # disabled components that others depend on: their edges stay edges
+            world = W.World(spec, "c01g_%d" % chk.seed)
+            for k in range(3):
+                case = {"op": "walk", "walk": "group", "roots": list(range(len(spec))), "spec": W.strip(spec), "late": [], "run": True,
+                        "seeds": W.gen_seeds(rng, spec) if k else [], "shape": "cluster-group", "entry": False}
+                impl.append(walk_case(chk, world, case))
+                lines.append("depgraph\tlist\t%s\t%s" % (";".join("%d:%s" % (c, ",".join(map(str, sorted(d))))
+                                                                   for c, d in sorted(_walk_decl(world, []).items())),
+                                                         ",".join(map(str, case["roots"]))))
+                cases.append(case)
+                chk.case(("walk", "group", k, lines[-1]), nontrivial=True)
+                chk.count("walk:group")
+    for idx in range(n_worlds):
+        n = rng.randint(1, 11)
+        spec = W.gen_spec(rng, n, fault_rate=0.1)
+        shape = rng.choice(["any", "any", "shared-leaf", "flat", "falsy", "overlap"])
+        for cid, sc in enumerate(spec):
+            if sc["kind"] == "point" or not cid:
+                continue
+            if shape == "shared-leaf" and sc["kind"] not in ("parser1", "parser0"):
+                sc["items"] = sc["items"] + [("o", 0)]                     # component 0 is a leaf shared by every dependent
+            elif shape == "flat" and sc["kind"] not in ("parser1", "parser0") and rng.random() < 0.6:
+                sc["items"], sc["optional"] = [], []                       # components without any dependency
+                sc.pop("cls_req", None); sc.pop("cls_opt", None)
+                if sc["body"].startswith("i:"):
+                    sc["body"] = "v"
+            elif shape == "falsy" and sc["kind"] in ("plain", "plugin", "rule"):
+                sc["falsy"] = True
+            elif shape == "overlap" and sc["kind"] not in ("parser1", "parser0"):
+                m = [rng.randrange(cid) for _ in range(rng.randint(1, 3))]
+                sc["items"] = sc["items"] + [("g", list(m)), ("g", list(reversed(m)))]   # two groups with the same members
+                sc["optional"] = list(sc["optional"]) + m[:1]                             # ... one of them optional as well
+        world = W.World(spec, "c01w_%d_%d" % (chk.seed, idx))
+        late = []
+        kept.append((world, late, spec))
+        regs = lambda: ";".join("%d:%s" % (c, ",".join(map(str, sorted(d)))) for c, d in sorted(_walk_decl(world, late).items()))
+        for rnd in range(2):
+            for _ in range(rng.randint(2, 4)):
+                mode = rng.choice(["one", "one", "one-dc", "list", "list", "set", "type"])
+                k = 1 if mode in ("one", "one-dc", "type") else rng.choice([0, 1, 2, 2, 3])
+                roots = [rng.randrange(n) for _ in range(k)]
+                if mode == "list" and roots and rng.random() < 0.3:
+                    roots.append(roots[0])                                  # the same component twice
+                if mode == "type":
+                    own = [c for c, sc in enumerate(spec) if sc["kind"] in ("plain", "plugin") and (sc.get("cls_req") or sc.get("cls_opt"))]
+                    if not own:
+                        mode = "one-dc"
+                    else:
+                        roots = [rng.choice(own)]
+                if mode in ("one", "list", "set") and roots and rng.random() < 0.06:
+                    # a component that was never registered (determine_components(<a lone unregistered object>) is no
+                    # graph at all, None: nothing to compare, not generated)
+                    roots[rng.randrange(len(roots)):] = [n]
+                if mode == "set":
+                    roots = sorted(set(roots))
+                seeds = W.gen_seeds(rng, spec) if rng.random() < 0.4 else []
+                case = {"op": "walk", "walk": mode, "roots": roots, "spec": W.strip(spec), "late": list(late), "run": True,
+                        "seeds": seeds, "shape": shape, "entry": rng.random() < 0.5}
+                impl.append(walk_case(chk, world, case))
+                lines.append("depgraph\t%s\t%s\t%s" % ("one" if mode in ("one", "one-dc", "type") else "list", regs(),
+                                                       ",".join(map(str, roots)) or "-"))
+                cases.append(case)
+                chk.case(("walk", lines[-1]), nontrivial=impl[-1].count(":") >= 3)
+                chk.count("walk:" + mode)
+                chk.count("walk-shape:" + shape)
+                if case["entry"] and mode in ("one", "list", "set"):
+                    chk.count("walk:insights.run(component=...)")
+                if impl[-1] == "unregistered":
+                    chk.count("walk:unregistered")
+            # history: a later registration adds an edge; the next graphs must have it
+            cands = world.late_candidates(set(range(n)))
+            if rnd == 0 and cands and rng.random() < 0.7:
+                pnt, dsid = rng.choice(cands)
+                world.late_register(pnt, dsid)
+                late.append((pnt, dsid))
+                chk.count("walk:after-late-registration")
+            else:
+                break
+    # the engine's default argument: everything registered in this process at once (two entry points)
+    if kept:
+        # (under a replaced enabled registry "enabled" is what the LAST world configured: restore default-on, then this
+        # world set's own disabled components)
+        import insights
+        insights.apply_default_enabled({"default_component_enabled": True})
+        for world, _, spec in kept:
+            for cid, sc in enumerate(spec):
+                if not sc.get("enabled", True):
+                    dr.set_enabled(world.comps[cid], False)
+        # (get_subgraphs is quadratic in the size of the graph: run_all only while the process registry is of moderate size)
+        for mode in (("run", "run_all") if len(dr.COMPONENTS[dr.GROUPS.single]) < 40000 else ("run",)):
+            k = default_graph_case(chk, kept, mode)
+            chk.case(("default-graph", mode, k), nontrivial=k > 100)
+            chk.count("default-graph:%s" % mode)
+    chk.compare("walk-vs-model", cases, impl, run_driver("Dr", lines))
+
+
 def run(chk):
     quick = chk.tier == "quick"
     n_worlds = 1200 if quick else 20000
@@ -195,6 +616,11 @@ def run(chk):
             oracle(chk, world, rg, {"spec": W.strip(spec), "seeds": seeds, "targets": targets, "order": rg.order_ids, "store_skips": ss,
                                     "dropped": None, "mode": "run", "group_graph": True})
             chk.count("group-graph")
+        if idx % 5 == 1:
+            scase = {"spec": W.strip(spec), "seeds": seeds, "targets": targets, "order": None, "store_skips": ss,
+                     "dropped": dropped, "mode": "seed-broker"}
+            seed_broker_case(chk, world, seeds, ss, graph, scase)
+            chk.count("seed-broker-history")
         if idx % 5 in (2, 3):
             # sub-graph after sub-graph on ONE broker (serially, and through run_all on a deferring pool): still at most
             # once per component, nothing outside the graph, the declared edges untouched
@@ -302,10 +728,34 @@ def run(chk):
         chk.count("attempted:%d" % min(k, 10))
     chk.compare("engine-vs-model", cases, impl, model)
     chk.sample({"case": cases[0], "impl": impl[0]})
+    walk_stream(chk, 450 if quick else 8000)
 
 
 def replay(data):
     case = data["case"]
+    if case.get("op") == "walk":
+        return replay_walk(case)
+    if case.get("op") == "default-graph":
+        spec = W.unstrip(case["spec"])
+        W._replay_counter[0] += 1
+        world = W.World(spec, "replayd%d" % W._replay_counter[0])
+        for p, d in case.get("late", []):
+            world.late_register(p, d)
+
+        class Rep3(object):
+            bad = 0
+
+            def failure(self, desc, c, finding=None):
+                self.bad += 1
+                print("oracle:", desc)
+        rep = Rep3()
+        for attempt in range(10):
+            k = default_graph_case(rep, [(world, [tuple(x) for x in case.get("late", [])], spec)], case.get("mode", "run"))
+            if rep.bad:
+                break
+        print("default graph of this process (%d components came up)" % k)
+        print("property violated on this input" if rep.bad else "property holds on this input")
+        return 1 if rep.bad else 0
     if case.get("mode") == "archive-entry":
         world, seeds, graph = W.rebuild(case)
 
@@ -317,6 +767,19 @@ def replay(data):
                 print("oracle:", desc)
         rep = Rep()
         archive_entry_case(rep, world, graph, case)
+        print("property violated on this input" if rep.bad else "property holds on this input")
+        return 1 if rep.bad else 0
+    if case.get("mode") == "seed-broker":
+        world, seeds, graph = W.rebuild(case)
+
+        class Rep2(object):
+            bad = 0
+
+            def failure(self, desc, c, finding=None):
+                self.bad += 1
+                print("oracle:", desc)
+        rep = Rep2()
+        seed_broker_case(rep, world, seeds, case.get("store_skips", False), graph, case)
         print("property violated on this input" if rep.bad else "property holds on this input")
         return 1 if rep.bad else 0
     if case.get("mode") in ("incremental", "pooled", "entry-parallel", "entry-serial"):
@@ -344,3 +807,40 @@ def replay(data):
         print("property violated on this input" if bad else "property holds on this input")
         return 1 if bad else 0
     return W.generic_replay(data, oracle)
+
+
+def replay_walk(case):
+    # which of several admissible orders the engine takes depends on the addresses of the component objects: the
+    # recorded declaration is rebuilt (fresh objects) up to 25 times
+    for attempt in range(25):
+        bad = _replay_walk_once(case, attempt)
+        if bad:
+            print("property violated on this input")
+            return 1
+    print("property holds on this input")
+    return 0
+
+
+def _replay_walk_once(case, attempt):
+    W._replay_counter[0] += 1
+    world = W.World(W.unstrip(case["spec"]), "replayw%d" % W._replay_counter[0])
+    for p, d in case.get("late", []):
+        world.late_register(p, d)
+
+    class Rep(object):
+        bad = 0
+
+        def failure(self, desc, c, finding=None):
+            self.bad += 1
+            print("oracle:", desc)
+    rep = Rep()
+    text = walk_case(rep, world, case)
+    lines = ["depgraph\t%s\t%s\t%s" % ("one" if case["walk"] in ("one", "one-dc", "type") else "list",
+                                       ";".join("%d:%s" % (c, ",".join(map(str, sorted(d))))
+                                                for c, d in sorted(_walk_decl(world, [tuple(x) for x in case.get("late", [])]).items())),
+                                       ",".join(map(str, case["roots"])) or "-")]
+    model = run_driver("Dr", lines)[0]
+    if attempt == 0 or rep.bad or model != text:
+        print("graph construction (%s) from %s: %s" % (case["walk"], case["roots"], text))
+        print("model:", model)
+    return bool(rep.bad or model != text)
